@@ -285,8 +285,10 @@ def gen_times(rng, tier, out):
                 d = (F(k) + F(1, 2)) / rate          # half a sample: rejected
             elif r < 0.86:
                 d = (F(k) + rng.choice([-1, 1]) * F(1, 10 ** 12)) / rate     # inside the tolerance
+            elif r < 0.90:
+                d = (F(k) + rng.choice([-1, 1]) * F(1, 2 * 10 ** 11)) / rate  # 5e-12: just inside
             elif r < 0.94:
-                d = (F(k) + rng.choice([-1, 1]) * F(1, 10 ** 8)) / rate      # outside
+                d = (F(k) + rng.choice([-1, 1]) * rng.choice([F(1, 10 ** 8), F(5, 10 ** 10), F(2, 10 ** 10)])) / rate  # outside
             else:
                 d = F(1, 10 ** 12) / rate                                     # rounds to 0 samples: rejected
             durs.append(d)
